@@ -21,13 +21,14 @@ def norm_model(line, decline=("Unmodelled",)):
     return out
 
 
-def oracle_shapes(data):
-    """model-free C09 on one program: real Interpreter vs real reference VM after each opcode"""
+def oracle_shapes(data, permissive=False):
+    """model-free C09 on one program: real Interpreter vs real reference VM after each opcode
+    (permissive: the VM's opaque objects accept .append/.extend/.add like a real deque would)"""
     try:
         fk, _, _ = vmlib.fk_trace(data)
     except Exception as e:
         return None  # fickling refuses to parse: outside the quantifier
-    vm, _, _, _ = vmlib.vm_trace(data)
+    vm, _, _, _ = vmlib.vm_trace(data, permissive)
     for i, (a, b) in enumerate(zip(fk, vm)):
         if a == "ERR" or b == "ERR":
             return None
@@ -105,6 +106,10 @@ def main(tier, seed):
             corpus.append(("corpus", bytes.fromhex(json.loads(line)["hex"])))
     for prog in progs.enumerate_typed(L):
         corpus.append(("exhaustive", asm.assemble(prog)))
+    for prog in progs.object_container_programs():
+        corpus.append(("objcontainer", asm.assemble(prog)))
+    for prog in progs.alias_programs():
+        corpus.append(("alias", asm.assemble(prog)))
     for _ in range(nrand):
         corpus.append(("random", asm.assemble(progs.random_typed(rng))))
     for _ in range(nnat):
@@ -170,6 +175,17 @@ def main(tier, seed):
     if built:
         chk.oblige(f"correspondence: per-opcode shapes, real Interpreter.step() and instrumented "
                    f"pickle._Unpickler vs model, {len(idx)} programs", not mism, json.dumps(mism[:3]))
+    # container opcodes on OBJECTS: the Coq reference model declines them (and so does fickling today); if
+    # fickling ever accepts them, its shapes must be the real VM's -- checked model-free on the whole family
+    oc_bad = []
+    for kind, d in corpus:
+        if kind == "objcontainer":
+            why = oracle_shapes(d, permissive=True)
+            chk.count()
+            if why:
+                oc_bad.append({"hex": d.hex(), **why})
+    chk.oblige("property oracle: programs applying APPEND/APPENDS/ADDITEMS to an object -- refused, or same "
+               "shapes as the VM after every opcode", not oc_bad, json.dumps(oc_bad[:3]))
     # Trace.run passivity: model-free comparison on a sample (the model's statement is C09_trace_passive)
     tr_bad = []
     sample = [d for k, d in corpus if k in ("natural", "random", "corpus")][: (400 if tier == "quick" else 5000)]
@@ -191,6 +207,9 @@ def main(tier, seed):
                 return {"hex": m["hex"], "oracle": "symbolic stack/memo shape differs from the reference VM", **why}
         for t in tr_bad:
             return {"hex": t["hex"], "oracle": "tracing is not passive", **{k: v for k, v in t.items() if k != "hex"}}
+        for t in oc_bad:
+            return {"oracle": "symbolic stack/memo shape differs from the reference VM (container opcode on an "
+                              "object)", "permissive": True, **t}
         for kind, data in corpus:
             why = oracle_shapes(data)
             if why:
@@ -209,7 +228,7 @@ def replay(path):
         print("replay: no concrete input recorded; re-running the quick check")
         return main("quick", doc.get("seed", 0))
     data = bytes.fromhex(case["hex"])
-    why = oracle_shapes(data) or oracle_trace(data)
+    why = oracle_shapes(data, bool(case.get("permissive"))) or oracle_trace(data)
     if why:
         print(f"VIOLATION property=C09 replay={path}")
         print(json.dumps(why))
